@@ -23,8 +23,9 @@ Full statement / proved / missing
   `C04_accepts_sound_partial` — the third law from C01_sound_partial (rule off, fragment `Ty.Frag`) for any value whose detailed type it
   is an instance of; `C04_common_unit` (Unit never absorbs: the repaired rule), `C04_common_accepts_left/right` — the first two branches
   of `commonType` are upper bounds given reflexivity; `C04_common_tail` — the Numeric/ScalarData/Scalar/Data/RichData/Any tail is an upper bound.
-* FALSE of the code, with witnesses (known findings): `C04_accepts_complete_fails_scalar` (Scalar has Timespan values but rejects Timespan types),
-  `C04_accepts_complete_fails_object` (Object has every type value as an instance but rejects Type[..]), `C04_accepts_complete_fails_hash`
+* REPAIRED in /repo and proved of the repaired code: `C04_generalize_float_inf_repaired` (the default Float has no bounds),
+  `C04_scalar_timespan_repaired` (Scalar, and through it RichData, accepts the Timespan types whose values it admits).
+* FALSE of the code, with witnesses (known findings): `C04_accepts_complete_fails_object` (Object has every type value as an instance but rejects Type[..]), `C04_accepts_complete_fails_hash`
   (the detailed type of a hash with non-string keys is a commonType fold).
   `C04_ptype` — THE FIRST LAW, unconditional, for every value that holds no type value (nested heterogeneous arrays, hashes with any
   keys, Sensitive, objects, scalars), for the code's setting of the exempt rule: fold invariant "every element seen so far is an instance
@@ -167,11 +168,19 @@ theorem C04_generalize_float_inf_repaired (cfg : Cfg) (sfh : Bool) :
   · unfold floatAll inst; simp only [Bool.and_eq_true, decide_eq_true_eq]
     rw [Fl.effLo_default, Fl.effHi_default]; exact ⟨Int.le_refl _, inf0⟩
 
-theorem C04_accepts_complete_fails_scalar :
-    inst idCfg4 true .scalar (.tspan 5) = true ∧ asg idCfg4 true .scalar (dtype idCfg4 true (.tspan 5)) = false := by
-  constructor
-  · simp [inst, isScalarVal]
-  · simp [dtype, ptype, asg, asgRecv, sameNullary, isStringFamily]
+/-- the former witness of finding C04-incomplete-scalar-timespan (Scalar, and through it RichData, had Timespan values as instances
+    but rejected the Timespan types; /repo fix "Scalar accepts the types of all the values it admits"): Scalar and RichData accept
+    the detailed type of every Timespan value -/
+theorem C04_scalar_timespan_repaired (cfg : Cfg) (sfh : Bool) (n : Int) (h1 : I64.min ≤ n) (h2 : n ≤ I64.max) :
+    inst cfg sfh .scalar (.tspan n) = true ∧ asg cfg sfh .scalar (dtype cfg sfh (.tspan n)) = true ∧
+    asg cfg sfh .richData (dtype cfg sfh (.tspan n)) = true := by
+  have hs : asg cfg sfh (.tspan Rng.all) (.tspan ⟨n, n⟩) = true := by
+    simp [asg, asgRecv, sameNullary, Ty.isAny, Rng.sub, Rng.all]; exact ⟨h1, h2⟩
+  have hsc : asg cfg sfh .scalar (.tspan ⟨n, n⟩) = true := by
+    rw [asg_plain_r cfg sfh _ _ rfl]; simp [Ty.isAny, sameNullary, asgRecv, hs]
+  refine ⟨by simp [inst, isScalarVal], by simpa [dtype, ptype] using hsc, ?_⟩
+  simp only [dtype, ptype]
+  rw [asg_plain_r cfg sfh _ _ rfl]; simp [Ty.isAny, sameNullary, asgRecv, hsc]
 
 theorem C04_accepts_complete_fails_object :
     inst idCfg4 true (.object none) (.typ .str) = true ∧ asg idCfg4 true (.object none) (dtype idCfg4 true (.typ .str)) = false := by
